@@ -178,7 +178,7 @@ def bad_case(draw):
                                  "out-mismatch", "out-length", "not-state", "out-not-state",
                                  "float-int-valued"]))
     return {"prog": prog, "good": good, "kind": kind, "pos": draw(st.integers(0, nv - 1)),
-            "extra": draw(st.integers(1, 2))}
+            "extra": draw(st.integers(1, 2)), "bare": draw(st.booleans())}
 
 
 def run_bad(case):
@@ -214,8 +214,17 @@ def run_bad(case):
         ins = [good]; excs = (TypeError,)
     else:
         ins = [S(good)]; outs = [good]; excs = (TypeError,)
+    labels = [k]
+    if case.get("bare"):
+        # single states may be given without a list (documented for inputs and accepted for outputs)
+        if len(ins) == 1 and k != "not-state":
+            ins = ins[0]
+            labels.append("bare-input")
+        if outs is not None and len(outs) == 1 and k != "out-not-state":
+            outs = outs[0]
+            labels.append("bare-output")
     expect_raises(f"simulate({k})", excs, sim.simulate, ins, outs)
-    return {"nontrivial": True, "labels": [k]}
+    return {"nontrivial": True, "labels": labels}
 
 
 def subs(tier):
